@@ -304,7 +304,11 @@ def cases(draw, family):
         kind = draw(st.sampled_from(list(panelpool.PANEL_TRANSFORMERS)))
         spec = {"kind": kind, "random_state": draw(st.integers(0, 50))}
         spec["num_intervals"] = draw(st.integers(1, 7))
-        spec["n_intervals"] = draw(st.integers(1, 4))
+        spec["n_intervals"] = draw(st.one_of(st.integers(1, 4), st.sampled_from(["random", "sqrt"])))
+        if spec["n_intervals"] != "random":
+            # intervals may be as short as a single time point
+            spec["min_length"] = draw(st.sampled_from([None, None, 1, 2]))
+        spec["more_features"] = draw(st.booleans())
         spec["intervals"] = draw(st.integers(1, 5))
         spec["window_length"] = draw(st.integers(1, 7))
         spec["length"] = draw(st.integers(2, 25))
@@ -400,6 +404,9 @@ def enum_every_kind(tier):
                 "length": 9, "num_kernels": 6}
         if k == "pad":
             spec["pad_length"] = 40
+        if k in ("rife", "riseg"):
+            # unit-width intervals and several features per interval
+            spec.update({"n_intervals": 4, "min_length": 1, "more_features": True})
         origin = 3 if labels == "cell_origin" else 0
         if origin:
             labels = None
